@@ -43,6 +43,8 @@ pub enum UFate {
     Delay1,
     Delay2,
     Corrupt,
+    /// flip a bit of the prefix byte (announced sequence length)
+    CorruptPrefix,
     ReplayOld,
 }
 
@@ -67,6 +69,8 @@ struct Relay {
     /// (bytes, to_server, due tick)
     queue: Vec<(Vec<u8>, bool, u32)>,
     history: [Vec<Vec<u8>>; 2],
+    /// tick at which the relay last forwarded an untouched, first-time datagram from the client to the server
+    last_authentic_c2s: Option<u32>,
 }
 
 struct ClientSide {
@@ -122,7 +126,7 @@ impl<'c> World<'c> {
         for _ in 0..cfg.clients {
             let r = sock()?;
             let c = sock()?;
-            relays.push(Relay { addr: r.local_addr().unwrap(), client: c.local_addr().unwrap(), server: server_addr, sock: r, queue: vec![], history: [vec![], vec![]] });
+            relays.push(Relay { addr: r.local_addr().unwrap(), client: c.local_addr().unwrap(), server: server_addr, sock: r, queue: vec![], history: [vec![], vec![]], last_authentic_c2s: None });
             client_socks.push(c);
         }
         let st = NetcodeServerTransport::new(
@@ -184,6 +188,14 @@ impl<'c> World<'c> {
                             self.faults += 1;
                             ctx.note(|| format!("t{} relay{} {}: {} B datagram fate {:?}", tick, ri, if to_server { "c->s" } else { "s->c" }, n, fate));
                         }
+                        if to_server && !matches!(fate, UFate::Drop | UFate::Corrupt | UFate::CorruptPrefix) {
+                            let due = match fate {
+                                UFate::Delay1 => tick + 1,
+                                UFate::Delay2 => tick + 2,
+                                _ => tick,
+                            };
+                            r.last_authentic_c2s = Some(r.last_authentic_c2s.map(|t| t.max(due)).unwrap_or(due));
+                        }
                         match fate {
                             UFate::Ok => r.queue.push((bytes.clone(), to_server, tick)),
                             UFate::Drop => {}
@@ -199,6 +211,11 @@ impl<'c> World<'c> {
                                 c[p] ^= 0x40;
                                 r.queue.push((c, to_server, tick));
                             }
+                            UFate::CorruptPrefix => {
+                                let mut c = bytes.clone();
+                                c[0] ^= 0x40;
+                                r.queue.push((c, to_server, tick));
+                            }
                             UFate::ReplayOld => {
                                 r.queue.push((bytes.clone(), to_server, tick));
                                 if let Some(old) = r.history[d].first() {
@@ -211,6 +228,13 @@ impl<'c> World<'c> {
                     Err(e) if e.kind() == std::io::ErrorKind::WouldBlock => break,
                     Err(e) => return Err(Violation::new("machinery/relay-io", e.to_string())),
                 }
+            }
+            // the on-path party may also replay the link's first client datagram (the connection request) on its own
+            if to_server && open && self.cfg.fates.contains(&UFate::ReplayOld) && !r.history[1].is_empty() && ctx.choose(2) == 1 {
+                let old = r.history[1][0].clone();
+                ctx.note(|| format!("t{} relay{}: on-path replay of the link's first client datagram ({} B)", tick, ri, old.len()));
+                r.queue.push((old, true, tick));
+                self.faults += 1;
             }
             let mut rest = vec![];
             for (bytes, ts, due) in r.queue.drain(..) {
@@ -376,6 +400,23 @@ impl<'c> World<'c> {
         }
         if self.st.connected_clients() != netcode_ids.len() {
             return Err(Violation::new("C20/connected_clients-disagrees", format!("{} vs {:?}", self.st.connected_clients(), netcode_ids)));
+        }
+        // a session without authentic client traffic for longer than the time-out must be gone
+        let timeout_ticks = (TIMEOUT_S as u64 * 1000 / DT_MS) as u32;
+        for (i, c) in self.clients.iter().enumerate() {
+            if self.st.client_addr(c.id).is_some() {
+                if let Some(last) = self.relays[i].last_authentic_c2s {
+                    if tick > last + timeout_ticks + 1 {
+                        return Err(Violation::new(
+                            "C20/session-outlives-timeout-without-authentic-traffic",
+                            format!(
+                                "tick {}: the server still holds client {}'s session although the last untouched, first-time datagram from that client was forwarded at tick {} (time-out {} ticks): replayed or corrupted datagrams keep it alive",
+                                tick, i, last, timeout_ticks
+                            ),
+                        ));
+                    }
+                }
+            }
         }
         // application: receive
         for i in 0..self.clients.len() {
@@ -556,7 +597,7 @@ impl Scenario for UdpScenario {
 
 pub fn scenarios(tier: Tier) -> Vec<UdpScenario> {
     let mut v = vec![];
-    let all = vec![UFate::Ok, UFate::Drop, UFate::Dup, UFate::Delay1, UFate::Delay2, UFate::Corrupt, UFate::ReplayOld];
+    let all = vec![UFate::Ok, UFate::Drop, UFate::Dup, UFate::Delay1, UFate::Delay2, UFate::Corrupt, UFate::CorruptPrefix, UFate::ReplayOld];
     for (name, end) in [
         ("no disconnect", End::None),
         ("client 0 RenetClient::disconnect", End::ClientRenetDisconnect),
@@ -572,7 +613,7 @@ pub fn scenarios(tier: Tier) -> Vec<UdpScenario> {
                 end,
                 end_tick: 7,
                 send_tick: 4,
-                horizon: tier.pick(9, 10),
+                horizon: if end == End::ClientSilent { 16 } else { tier.pick(9, 10) },
                 fault_from: 0,
                 // time-out 2 s = 8 ticks, plus resend and teardown
                 tail: 14,
